@@ -5,8 +5,7 @@ from common import coq, nat, natlist, Raw
 from . import util
 
 TARGETS = ['Properties/C16.vo', 'Tie/Junctors.vo', 'Run/ObsC16.vo']
-THEOREMS = ['C16_table_total_exclusive', 'C16_unary_table_total_exclusive', 'C16_entries_are_pairs_of_contingent',
-            'C16_sorted_by_rank', 'C16_implication_orientation']
+THEOREMS = util.theorems('C16')
 RUN_MODULE = 'Run.ObsC16'
 RULE = ('every context of EXH(10) (quick; EXH(12) thorough; 0/1 contingent property, only-orthogonal, equal and complementary columns all occur) '
         '/ EXH(16 with <=6 columns) thorough + FAM + WIDE + RND; observation = (kind, left, right, order) of every entry for both '
